@@ -2,7 +2,8 @@
 // TrianglePredicate called directly. One result line per input line (format of ocaml/drv_C16.ml), fflush after each.
 //
 //   D <k> <tolnum> <gtype> x y x y ...           sites in grid units (integers); ordinate = x * 2^k; tolerance = tolnum * 2^k
-//        gtype: M = MULTIPOINT, L = LINESTRING, C = GEOMETRYCOLLECTION(POINT..., LINESTRING)
+//        gtype: M = MULTIPOINT, L = LINESTRING, C = GEOMETRYCOLLECTION(POINT..., LINESTRING), Z = MULTIPOINT Z, Y = LINESTRING Z
+//               (Z / Y: the Z ordinate depends on the position in the list: equal X,Y sites differ in Z)
 //        -> "T x y x y x y ; ... | E x y x y ; ..."     (triangles call, then edges-only call; grid units)
 //   C <k> ring ; ring ; ...  [ / ring ; ... ]*    polygon(s): first ring shell, others holes; "/" separates polygons (MULTIPOLYGON)
 //        ring = x y x y ... (closed)             -> "T x y x y x y ; ..."
@@ -54,8 +55,21 @@ static GEOSCoordSequence* seq(const std::vector<double>& xy, size_t from, size_t
     for (size_t i = 0; i < n; i++) GEOSCoordSeq_setXY_r(h, cs, (unsigned)i, std::ldexp(xy[2 * (from + i)], k), std::ldexp(xy[2 * (from + i) + 1], k));
     return cs;
 }
+// sites carrying a Z ordinate that depends on the POSITION in the list, so that two sites with the same X,Y get different Z
+static GEOSCoordSequence* seqz(const std::vector<double>& xy, size_t from, size_t n, int k) {
+    GEOSCoordSequence* cs = GEOSCoordSeq_create_r(h, (unsigned)n, 3);
+    for (size_t i = 0; i < n; i++)
+        GEOSCoordSeq_setXYZ_r(h, cs, (unsigned)i, std::ldexp(xy[2 * (from + i)], k), std::ldexp(xy[2 * (from + i) + 1], k), (double)(((from + i) * 7 + 3) % 11) - 4.0);
+    return cs;
+}
 static GEOSGeometry* sites_geom(const std::string& gtype, const std::vector<double>& xy, int k) {
     size_t n = xy.size() / 2;
+    if (gtype == "Y" && n >= 2) return GEOSGeom_createLineString_r(h, seqz(xy, 0, n, k));      // LINESTRING Z
+    if (gtype == "Z" || gtype == "Y") {                                                        // MULTIPOINT Z
+        std::vector<GEOSGeometry*> gz;
+        for (size_t i = 0; i < n; i++) gz.push_back(GEOSGeom_createPoint_r(h, seqz(xy, i, 1, k)));
+        return GEOSGeom_createCollection_r(h, GEOS_MULTIPOINT, gz.data(), (unsigned)gz.size());
+    }
     if (gtype == "L" && n >= 2) return GEOSGeom_createLineString_r(h, seq(xy, 0, n, k));
     if (gtype == "C" && n >= 3) {
         std::vector<GEOSGeometry*> gs;
